@@ -226,6 +226,9 @@ pub enum VOp {
     IoWrite(Vec<u8>),
     IterRev,
     Eq,
+    /// Index / IndexMut with range forms (panic parity), iter_mut, Extend<&T>, comparisons, hash
+    SliceIndex(u8, usize, usize),
+    TraitOps(u8, Vec<u32>),
 }
 
 impl VOp {
@@ -277,6 +280,8 @@ impl VOp {
             VOp::IoWrite(..) => "io::Write",
             VOp::IterRev => "iter-rev",
             VOp::Eq => "eq/hash/debug",
+            VOp::SliceIndex(..) => "index-range",
+            VOp::TraitOps(..) => "trait-impls",
         }
     }
 }
@@ -666,6 +671,70 @@ pub fn apply_b<'b, T: El>(b: &'b Bump, v: &mut BVec<'b, T>, op: &VOp, slices: &m
             Res::Unit
         }
         VOp::IoWrite(_) => Res::Unit,
+        VOp::SliceIndex(form, a, c) => {
+            let (a, c) = (*a, *c);
+            let t: &[T] = match form {
+                0 => &v[a..c],
+                1 => &v[..c],
+                2 => &v[a..],
+                3 => &v[..],
+                4 => &v[a..=c],
+                _ => &v[..=c],
+            };
+            let out = keys_of(t);
+            let m: &mut [T] = match form {
+                0 => &mut v[a..c],
+                1 => &mut v[..c],
+                2 => &mut v[a..],
+                3 => &mut v[..],
+                4 => &mut v[a..=c],
+                _ => &mut v[..=c],
+            };
+            m.reverse();
+            Res::Keys(out)
+        }
+        VOp::TraitOps(which, ks) => {
+            use std::hash::{Hash, Hasher};
+            match which {
+                0 => {
+                    for x in v.iter_mut() {
+                        if x.key() % 2 == 0 {
+                            *x = T::mk(x.key() + 1);
+                        }
+                    }
+                    Res::Unit
+                }
+                1 => {
+                    let mut out = Vec::new();
+                    for x in &*v {
+                        out.push(x.key());
+                    }
+                    for x in &mut *v {
+                        out.push(x.key() ^ 1);
+                    }
+                    Res::Keys(out)
+                }
+                2 => {
+                    let other: BVec<'b, T> = BVec::from_iter_in(kiter::<T>(ks, true), b);
+                    let e = [*v == other, v.as_slice() == other.as_slice(), *v == other.as_slice()];
+                    Res::Keys(e.iter().map(|x| *x as u32).collect())
+                }
+                3 => {
+                    let a: &[T] = v.as_ref();
+                    let n1 = a.len();
+                    let m: &mut [T] = v.as_mut();
+                    let n2 = m.len();
+                    let bw: &[T] = std::borrow::Borrow::borrow(&*v);
+                    let s1: &BVec<'b, T> = v.as_ref();
+                    Res::Keys(vec![n1 as u32, n2 as u32, bw.len() as u32, s1.len() as u32, v.as_slice().len() as u32, v.as_mut_slice().len() as u32, v.is_empty() as u32])
+                }
+                _ => {
+                    let mut h = std::collections::hash_map::DefaultHasher::new();
+                    keys_of(v).hash(&mut h);
+                    Res::Keys(vec![(h.finish() & 0xffff) as u32, format!("{:?}", keys_of(v)).len() as u32])
+                }
+            }
+        }
         VOp::IterRev => Res::Keys(v.iter().rev().map(|x| x.key()).collect()),
         VOp::Eq => {
             let c = v.clone();
@@ -971,6 +1040,70 @@ pub fn apply_s<T: El>(v: &mut Vec<T>, op: &VOp) -> Res {
             Res::Unit
         }
         VOp::IoWrite(_) => Res::Unit,
+        VOp::SliceIndex(form, a, c) => {
+            let (a, c) = (*a, *c);
+            let t: &[T] = match form {
+                0 => &v[a..c],
+                1 => &v[..c],
+                2 => &v[a..],
+                3 => &v[..],
+                4 => &v[a..=c],
+                _ => &v[..=c],
+            };
+            let out = keys_of(t);
+            let m: &mut [T] = match form {
+                0 => &mut v[a..c],
+                1 => &mut v[..c],
+                2 => &mut v[a..],
+                3 => &mut v[..],
+                4 => &mut v[a..=c],
+                _ => &mut v[..=c],
+            };
+            m.reverse();
+            Res::Keys(out)
+        }
+        VOp::TraitOps(which, ks) => {
+            use std::hash::{Hash, Hasher};
+            match which {
+                0 => {
+                    for x in v.iter_mut() {
+                        if x.key() % 2 == 0 {
+                            *x = T::mk(x.key() + 1);
+                        }
+                    }
+                    Res::Unit
+                }
+                1 => {
+                    let mut out = Vec::new();
+                    for x in &*v {
+                        out.push(x.key());
+                    }
+                    for x in &mut *v {
+                        out.push(x.key() ^ 1);
+                    }
+                    Res::Keys(out)
+                }
+                2 => {
+                    let other: Vec<T> = kiter::<T>(ks, true).collect();
+                    let e = [*v == other, v.as_slice() == other.as_slice(), *v == other.as_slice()];
+                    Res::Keys(e.iter().map(|x| *x as u32).collect())
+                }
+                3 => {
+                    let a: &[T] = v.as_ref();
+                    let n1 = a.len();
+                    let m: &mut [T] = v.as_mut();
+                    let n2 = m.len();
+                    let bw: &[T] = std::borrow::Borrow::borrow(&*v);
+                    let s1: &Vec<T> = v.as_ref();
+                    Res::Keys(vec![n1 as u32, n2 as u32, bw.len() as u32, s1.len() as u32, v.as_slice().len() as u32, v.as_mut_slice().len() as u32, v.is_empty() as u32])
+                }
+                _ => {
+                    let mut h = std::collections::hash_map::DefaultHasher::new();
+                    keys_of(v).hash(&mut h);
+                    Res::Keys(vec![(h.finish() & 0xffff) as u32, format!("{:?}", keys_of(v)).len() as u32])
+                }
+            }
+        }
         VOp::IterRev => Res::Keys(v.iter().rev().map(|x| x.key()).collect()),
         VOp::Eq => {
             let c = v.clone();
@@ -1096,13 +1229,12 @@ pub fn gen_op<T: El>(rng: &mut Rng, len: usize) -> VOp {
                 VOp::IterRev
             }
         }
-        _ => {
-            if rng.chance(1, 2) {
-                VOp::IterRev
-            } else {
-                VOp::Eq
-            }
-        }
+        _ => match rng.below(4) {
+            0 => VOp::IterRev,
+            1 => VOp::Eq,
+            2 => VOp::SliceIndex(rng.below(6) as u8, gen_idx(rng, len), gen_idx(rng, len)),
+            _ => VOp::TraitOps(rng.below(5) as u8, gen_keys(rng, 6)),
+        },
     }
 }
 
